@@ -78,7 +78,7 @@ def work(item):
         else:
             if ca not in (A.DMSAngle, A.DDMAngle):
                 return a
-            k = rng.choice([360, 180, 90, 7.5])
+            k = rng.choice([360, 180, 90, 7.5, -360, -90])
             v, f, d = va % k, (lambda: fa() % k), '(%s %% %r)' % (da, k)
         if abs(v) >= 720:
             return None
